@@ -23,7 +23,7 @@ from prompt_toolkit.input import DummyInput
 from prompt_toolkit.input.ansi_escape_sequences import REVERSE_ANSI_SEQUENCES
 from prompt_toolkit.input.vt100_parser import Vt100Parser
 from prompt_toolkit.key_binding.key_processor import KeyPress, _Flush
-from prompt_toolkit.keys import Keys
+from prompt_toolkit.keys import KEY_ALIASES, Keys
 from prompt_toolkit.output import DummyOutput
 from prompt_toolkit.selection import SelectionState, SelectionType
 
@@ -57,7 +57,7 @@ def key_presses(tok: str):
         if len(r) != 1:  # never for printable characters
             r = [KeyPress(tok, tok)]
     else:
-        key = Keys(tok)
+        key = Keys(KEY_ALIASES.get(tok, tok))
         seq = REVERSE_ANSI_SEQUENCES.get(key)
         if seq is not None:
             r = _parse(seq)
